@@ -281,7 +281,7 @@ def main():
     from vlib import common
     spec = json.load(open(job))
     signal.signal(signal.SIGALRM, _on_alarm)
-    sys.setrecursionlimit(3000)
+    # the interpreter's default recursion limit stays: a valid design the library cannot draw under it is a refusal
     with open(outp, 'a') as f:
         try:
             with common.muted():
